@@ -14,7 +14,7 @@
 (*    step; quantised: the counter shows multiples of a quantum and reads  *)
 (*    cost less than it): the loop terminates and reports the step.        *)
 (*                                                                         *)
-(* The state graph is a tree root -> row (a, f) -> point (a, b, f) so that *)
+(* The state graph is a tree root -> frequency f -> point (a, b, f) so that *)
 (* the workers share the evaluation; clock scripts hang off the root.      *)
 (***************************************************************************)
 EXTENDS Time, TLC
@@ -63,30 +63,37 @@ Clocks_q == Usable(AllClocks({1, 2, 3, 10, 999, 1000, 65536, 1000000}, Quants_q,
 Clocks_t == Usable(AllClocks(1..40 \cup {99, 100, 101, 999, 1000, 1001, 4096, 65535, 65536,
                                           1000000, 5000000}, Quants_t, 1..5))
 
-VARIABLES k,    \* "root" | "row" | "pt" | "clk"
+VARIABLES k,    \* "root" | "freq" | "pt" | "clk"
           pt,   \* <<index of a, index of b, index of f>>
+          tab,  \* at "freq" / "pt": Elapsed over Grid x Grid for the frequency
           ck    \* clock script, its current time and the loop state
 
-vars == <<k, pt, ck>>
+vars == <<k, pt, tab, ck>>
 
 NoClock == [c |-> Plain(1, 1), now |-> 0, ps |-> PrecInit]
+NG == Len(Grid)
 
-Init == k = "root" /\ pt = <<0, 0, 0>> /\ ck = NoClock
+Init == k = "root" /\ pt = <<0, 0, 0>> /\ tab = <<>> /\ ck = NoClock
 
-ToRow ==
+\* The table is computed once per frequency (TLCEval forces it) and handed
+\* down to the points, so that laws relating several values look them up.
+ToFreq ==
   /\ k = "root"
-  /\ \E ia \in 1..Len(Grid), fi \in 1..Len(Freqs) : pt' = <<ia, 0, fi>>
-  /\ k' = "row" /\ UNCHANGED ck
+  /\ \E fi \in 1..Len(Freqs) :
+       /\ pt' = <<0, 0, fi>>
+       /\ tab' = TLCEval([ia \in 1..NG, ib \in 1..NG |->
+                            Elapsed(Grid[ia], Grid[ib], Freqs[fi])])
+  /\ k' = "freq" /\ UNCHANGED ck
 
 ToPoint ==
-  /\ k = "row"
-  /\ \E ib \in 1..Len(Grid) : pt' = <<pt[1], ib, pt[3]>>
-  /\ k' = "pt" /\ UNCHANGED ck
+  /\ k = "freq"
+  /\ \E ia \in 1..NG, ib \in 1..NG : pt' = <<ia, ib, pt[3]>>
+  /\ k' = "pt" /\ UNCHANGED <<tab, ck>>
 
 ToClock ==
   /\ k = "root"
   /\ \E c \in Clocks : ck' = [c |-> c, now |-> c.start, ps |-> PrecInit]
-  /\ k' = "clk" /\ UNCHANGED pt
+  /\ k' = "clk" /\ UNCHANGED <<pt, tab>>
 
 Shown(c, t) == IF c.q = 0 THEN t ELSE (t \div c.q) * c.q
 
@@ -98,21 +105,26 @@ ClockIter ==
          e == Shown(c, ck.now + c.r)
      IN ck' = [ck EXCEPT !.now = @ + 2 * c.r,
                          !.ps = PrecStep(@, Elapsed(N(s), N(e), Freqs[c.fi]))]
-  /\ UNCHANGED <<k, pt>>
+  /\ UNCHANGED <<k, pt, tab>>
 
-Next == ToRow \/ ToPoint \/ ToClock \/ ClockIter
+Next == ToFreq \/ ToPoint \/ ToClock \/ ClockIter
 Spec == Init /\ [][Next]_vars
 
 (* ------------------------------ the laws ------------------------------- *)
-NG == Len(Grid)
-ETab == [ia \in 1..NG, ib \in 1..NG, fi \in 1..Len(Freqs) |->
-           Elapsed(Grid[ia], Grid[ib], Freqs[fi])]
+\* The optimised shift by 10^12 agrees with general multiplication.
+ASSUME \A i \in 1..NG : MulPow10(Grid[i], 12) = Mul(Grid[i], PicosPerSec)
+\* Division law for arbitrary grid operands: a = q * b + r with r < b.
+ASSUME \A i \in 1..NG, j \in 1..NG :
+         Grid[j] # Zero =>
+           LET qr == DivMod(Grid[i], Grid[j])
+           IN Add(Mul(qr[1], Grid[j]), qr[2]) = Grid[i] /\ Lt(qr[2], Grid[j])
+                /\ IsBigNat(qr[1]) /\ IsBigNat(qr[2])
 
 AtPoint == k = "pt"
 A == Grid[pt[1]]
 Bv == Grid[pt[2]]
 F == Freqs[pt[3]]
-E == ETab[pt[1], pt[2], pt[3]]
+E == tab[pt[1], pt[2]]
 
 ZeroWhenBackwards == AtPoint /\ Lt(Bv, A) => E = Zero
 
@@ -125,14 +137,14 @@ NoOverflow == AtPoint => IsBigNat(E) /\ Le(E, U128Max)
 
 MonotoneInB ==
   AtPoint => \A ic \in 1..NG :
-    Le(Bv, Grid[ic]) => Le(E, ETab[pt[1], ic, pt[3]])
+    Le(Bv, Grid[ic]) => Le(E, tab[pt[1], ic])
 
 \* a <= b <= c: the two parts add up to the whole, short of at most 1 ps.
 Additive ==
   AtPoint /\ Le(A, Bv) => \A ic \in 1..NG :
     Le(Bv, Grid[ic]) =>
-      LET parts == Add(E, ETab[pt[2], ic, pt[3]])
-          whole == ETab[pt[1], ic, pt[3]]
+      LET parts == Add(E, tab[pt[2], ic])
+          whole == tab[pt[1], ic]
       IN Le(parts, whole) /\ Le(whole, Add(parts, One))
 
 TranslationInvariant ==
@@ -142,7 +154,7 @@ TranslationInvariant ==
 
 \* Duration: seconds from the grid, sub-second part from Nanos.
 DurationExact ==
-  AtPoint => \A n \in Nanos :
+  AtPoint /\ pt[2] = 1 => \A n \in Nanos :
     LET d == FromDuration(A, n)
         nanos == Add(Mul(A, Pow10(9)), N(n))
     IN /\ d = Mul(nanos, N(1000))
